@@ -371,7 +371,7 @@ func renderValue(rv reflect.Value) any {
 type GenCfg struct {
 	ListCap  int // maximum list length
 	StrCap   int // maximum variable-text length
-	Alphabet int // 0 printable; 1 printable + pad bytes inside; 2 adds NUL and >=0x80; 3 arbitrary bytes
+	Alphabet int // 0 printable; 1 printable + pad bytes inside; 2 adds NUL and >=0x80; 3 arbitrary bytes; 4 valid multi-byte UTF-8 text
 	NumMode  int // 0 mixed; 1 extremes; 2 random bits
 	Stale    int // what the caller leaves in computed fields: 0 zero, 1 four (as the tests), 2 random, 3 mixed
 	NilBody  bool
@@ -410,7 +410,7 @@ func drawCfg(t *Tape, thorough bool) GenCfg {
 	default:
 		c.StrCap = 70000
 	}
-	c.Alphabet = t.Intn(4)
+	c.Alphabet = t.Intn(5)
 	c.NumMode = t.Intn(3)
 	c.Stale = t.Intn(4)
 	return c
@@ -440,7 +440,7 @@ func (g *Gen) count(prefix int) int {
 		return 0
 	}
 	// bias: 0, 1, small, up to cap
-	switch g.t.Intn(8) {
+	switch g.t.Intn(9) {
 	case 0:
 		return 0
 	case 1, 2:
@@ -449,8 +449,27 @@ func (g *Gen) count(prefix int) int {
 		return 1 + g.t.Intn(min(cap_, 4))
 	case 5, 6:
 		return 1 + g.t.Intn(cap_)
+	case 7:
+		return boundaryLen(g.t, cap_)
 	default:
 		return cap_
+	}
+}
+
+// utf8Runes is what alphabet 4 draws from: 1- to 4-byte encodings.
+var utf8Runes = []string{"A", "z", "7", " ", "é", "ß", "中", "文", "交", "易", "€", "𝄞", "😀"}
+
+// utf8Fill overwrites s (in place, same length) with valid UTF-8 text, ASCII-filling what does
+// not fit.
+func utf8Fill(s []byte, b *bulk) {
+	i := 0
+	for i < len(s) {
+		r := utf8Runes[b.intn(len(utf8Runes))]
+		if i+len(r) > len(s) {
+			r = "x"
+		}
+		copy(s[i:], r)
+		i += len(r)
 	}
 }
 
@@ -505,6 +524,9 @@ func (g *Gen) fixText(width int, pad byte, padLeft bool) string {
 	for i := range s {
 		s[i] = g.textByte(b, pad)
 	}
+	if g.cfg.Alphabet == 4 {
+		utf8Fill(s, b)
+	}
 	edge := n - 1
 	if padLeft {
 		edge = 0
@@ -527,7 +549,7 @@ func (g *Gen) varText(prefix int) string {
 		return ""
 	}
 	var n int
-	switch g.t.Intn(6) {
+	switch g.t.Intn(7) {
 	case 0:
 		n = 0
 	case 1:
@@ -536,6 +558,8 @@ func (g *Gen) varText(prefix int) string {
 		n = g.t.Intn(min(cap_, 24) + 1)
 	case 4:
 		n = g.t.Intn(cap_ + 1)
+	case 5:
+		n = boundaryLen(g.t, cap_)
 	default:
 		n = cap_
 	}
@@ -544,7 +568,25 @@ func (g *Gen) varText(prefix int) string {
 	for i := range s {
 		s[i] = g.textByte(b, ' ')
 	}
+	if g.cfg.Alphabet == 4 {
+		utf8Fill(s, b)
+	}
 	return string(s)
+}
+
+// lengths around which implementations change behaviour (prefix widths, typical scratch and
+// chunk sizes): a value at most limit
+var boundaryLens = []int{15, 16, 17, 31, 32, 33, 63, 64, 65, 127, 128, 129, 252, 253, 254, 255, 256, 257, 258, 511, 512, 513, 1023, 1024, 1025, 4095, 4096, 4097, 8191, 8192, 8193, 65534, 65535}
+
+func boundaryLen(t *Tape, limit int) int {
+	k := 0
+	for k < len(boundaryLens) && boundaryLens[k] <= limit {
+		k++
+	}
+	if k == 0 {
+		return limit
+	}
+	return boundaryLens[t.Intn(k)]
 }
 
 func numBitsFor(k reflect.Kind, mode int, pick int, r uint64) uint64 {
@@ -714,6 +756,9 @@ func (g *Gen) fillWithKey(rv reflect.Value, ts *TypeSchema, key *TableKey) {
 					for q := range s {
 						s[q] = g.textByte(b, ' ')
 					}
+					if g.cfg.Alphabet == 4 {
+						utf8Fill(s, b)
+					}
 					sl[j] = string(s)
 				}
 			}
@@ -782,6 +827,9 @@ func bulkFixText(b *bulk, g *Gen, width int, pad byte, padLeft bool) string {
 	s := make([]byte, n)
 	for i := range s {
 		s[i] = g.textByte(b, pad)
+	}
+	if g.cfg.Alphabet == 4 {
+		utf8Fill(s, b)
 	}
 	edge := n - 1
 	if padLeft {
@@ -899,4 +947,141 @@ func layoutValue(rv reflect.Value, ts *TypeSchema, path string, spans *[]Span, o
 
 func describeSpan(s Span) string {
 	return fmt.Sprintf("%s@%d+%d(%s)", strings.TrimPrefix(s.Path, "$."), s.Off, s.Len, s.Kind)
+}
+
+// ---------------------------------------------------------------- relatives of a value (histories)
+
+// variantOf returns a close relative of a message: some texts cut to a prefix, emptied or
+// extended, some lists truncated, emptied or extended with copies, some numbers zeroed, nested
+// parts recursively; discriminators (hence body types) are kept.  Used to build receiver and
+// process histories in which what was held before is *related* to what arrives now.  The result
+// need not be canonical (a cut text may end in its pad byte): it is only ever used through its
+// encoding.
+func variantOf(v any, b *bulk) any {
+	c := Clone(v)
+	varyValue(reflect.ValueOf(c).Elem(), schemaOf(typeNameOf(c)), b)
+	return c
+}
+
+func varyText(sv reflect.Value, limit int, b *bulk) {
+	s := sv.String()
+	switch b.intn(4) {
+	case 0:
+		sv.SetString(s[:b.intn(len(s)+1)])
+	case 1:
+		sv.SetString("")
+	case 2:
+		if len(s) < limit {
+			n := 1 + b.intn(min(limit-len(s), 3))
+			ext := make([]byte, n)
+			for i := range ext {
+				ext[i] = byte('A' + b.intn(26))
+			}
+			sv.SetString(s + string(ext))
+		}
+	}
+}
+
+func varyList(fv reflect.Value, prefix int, b *bulk) {
+	n := fv.Len()
+	switch b.intn(4) {
+	case 0:
+		if n > 0 {
+			fv.Set(fv.Slice(0, b.intn(n+1)))
+		}
+	case 1:
+		fv.Set(reflect.Zero(fv.Type()))
+	case 2:
+		if n > 0 && n+3 <= prefixMax(prefix) {
+			k := 1 + b.intn(3)
+			out := reflect.MakeSlice(fv.Type(), n+k, n+k)
+			reflect.Copy(out, fv)
+			for i := 0; i < k; i++ {
+				out.Index(n + i).Set(cloneValue(fv.Index(b.intn(n))))
+			}
+			fv.Set(out)
+		}
+	}
+}
+
+func varyValue(rv reflect.Value, ts *TypeSchema, b *bulk) {
+	for i := range ts.Fields {
+		f := &ts.Fields[i]
+		fv := fieldOf(rv, f.Name)
+		isDisc := f.Name == ts.Discriminator
+		switch f.Kind {
+		case "num":
+			if !isDisc && f.Computed == "" && b.intn(4) == 0 {
+				setBits(fv, 0)
+			}
+		case "fixstr":
+			if !isDisc {
+				varyText(fv, f.Width, b)
+			}
+		case "str":
+			varyText(fv, min(prefixMax(f.Prefix), fv.Len()+8), b)
+		case "numlist", "fixstrlist", "strlist":
+			varyList(fv, f.Prefix, b)
+		case "objlist":
+			varyList(fv, f.Prefix, b)
+			for j := 0; j < fv.Len() && j < 4; j++ {
+				if e := fv.Index(j); !e.IsNil() {
+					varyValue(e.Elem(), schemaOf(typeNameOfType(e.Type())), b)
+				}
+			}
+		case "obj":
+			if fv.Kind() == reflect.Ptr {
+				if !fv.IsNil() {
+					varyValue(fv.Elem(), schemaOf(typeNameOfType(fv.Type())), b)
+				}
+			} else {
+				varyValue(fv, schemaOf(typeNameOfType(fv.Type())), b)
+			}
+		case "body":
+			if !fv.IsNil() {
+				if dn := typeNameOfType(fv.Elem().Type()); schema.Types[dn] != nil {
+					varyValue(fv.Elem().Elem(), schemaOf(dn), b)
+				}
+			}
+		}
+	}
+}
+
+// breakForEncode turns a canonical value into one on which the library's Encode fails in its
+// ordinary, documented way: the innermost discriminator-selected part is removed and its
+// discriminator set to a key that is not registered.  It reports whether it changed anything
+// (types without a discriminator table cannot be broken this way).
+func breakForEncode(rv reflect.Value, ts *TypeSchema) bool {
+	if ts.Table == "" {
+		return false
+	}
+	var bodyF, discF reflect.Value
+	var discFS *FieldSchema
+	for i := range ts.Fields {
+		f := &ts.Fields[i]
+		if f.Kind == "body" {
+			bodyF = fieldOf(rv, f.Name)
+		}
+		if f.Name == ts.Discriminator {
+			discF = fieldOf(rv, f.Name)
+			discFS = f
+		}
+	}
+	if !bodyF.IsValid() || !discF.IsValid() {
+		return false
+	}
+	if !bodyF.IsNil() {
+		if dn := typeNameOfType(bodyF.Elem().Type()); schema.Types[dn] != nil {
+			if breakForEncode(bodyF.Elem().Elem(), schemaOf(dn)) {
+				return true
+			}
+		}
+	}
+	bodyF.Set(reflect.Zero(bodyF.Type()))
+	if discF.Kind() == reflect.String {
+		discF.SetString(strings.Repeat("~", max(discFS.Width, 1)))
+	} else {
+		setBits(discF, 0xFFFFFFFFFFFFFFF1)
+	}
+	return true
 }
